@@ -66,6 +66,77 @@ def check(ctx, cfg):
     r8(ctx, cfg)
     r9(ctx, cfg)
     r10(ctx, cfg)
+    r11(ctx, cfg)
+
+
+def r11(ctx, cfg):
+    """the helpers most users send their messages with - the provided methods of `Executor` - build the message from their own
+    arguments as they are, send it as the `sender` they were given through `execute`, propagate its verdict, and read their
+    answer out of that call's response (the new address from the instantiate envelope, the contract's data from the execute
+    envelope): a helper that drops the admin, the funds or the label, or sends as somebody else, breaks what the properties
+    are observed through"""
+    F, P = cfg.facts, cfg.prov
+    R = "C17.R11"
+    def p_(name):
+        return lambda o: just(o, lambda y: y[0] == "param" and y[2] == name)
+    def json_of(name):
+        def pred(o):
+            o = peel(o)
+            return o[0] == "ok" and peel(o[1])[0] == "call" and peel(o[1])[1] == "cosmwasm_std::to_json_binary" and is_param(peel(o[1])[2][0], name)
+        return pred
+    table = {
+        "instantiate_contract": ("cosmwasm_std::WasmMsg::Instantiate", {"admin": p_("admin"), "code_id": p_("code_id"), "msg": json_of("init_msg"), "funds": p_("send_funds"), "label": p_("label")}, "address"),
+        "execute_contract": ("cosmwasm_std::WasmMsg::Execute", {"contract_addr": p_("contract_addr"), "msg": json_of("msg"), "funds": p_("send_funds")}, "data"),
+        "migrate_contract": ("cosmwasm_std::WasmMsg::Migrate", {"contract_addr": p_("contract_addr"), "msg": json_of("msg"), "new_code_id": p_("new_code_id")}, "as-is"),
+        "send_tokens": ("cosmwasm_std::BankMsg::Send", {"to_address": p_("recipient"), "amount": p_("amount")}, "as-is"),
+    }
+    if cfg.has("cosmwasm_1_2"):
+        table["instantiate2_contract"] = ("cosmwasm_std::WasmMsg::Instantiate2", {"admin": p_("admin"), "code_id": p_("code_id"), "msg": json_of("init_msg"), "funds": p_("funds"),
+                                                                                  "label": p_("label"), "salt": p_("salt")}, "address")
+    for name, (variant, fields, answer) in sorted(table.items()):
+        key = "executor::Executor::" + name
+        f = ctx.need_fn(R, key)
+        if f is None:
+            continue
+        ex = [(g, b, t) for g in F.lexical(key) for b, t in g.calls() if t["callee"]["key"] == "executor::Executor::execute"]
+        ok = len(ex) == 1 and ex[0][0].key == key
+        d = "expected one self.execute(..) call, found %d" % len(ex)
+        if ok:
+            g, b, t = ex[0]
+            a = P.call_args(g, t, b)
+            m = peel(a[2])
+            bad = []
+            if not is_param(a[1], "sender"):
+                bad.append("sender")
+            if not (m[0] == "agg" and m[1] == variant):
+                bad.append("message kind %s" % (m[1] if m[0] == "agg" else m[0]))
+            else:
+                dd = dict(m[2])
+                bad += [k for k, pred in fields.items() if k not in dd or not pred(dd[k])]
+                bad += ["extra field %s" % k for k in dd if k not in fields]
+            if not q.error_propagates(P, g, b):
+                bad.append("verdict not propagated")
+            ok = not bad
+            d = "%s is not self.execute(sender, %s { %s }): %s" % (name, variant.rsplit("::", 2)[-2] + "::" + variant.rsplit("::", 1)[-1], ", ".join(fields), bad)
+        ctx.ob(R, key, "sends-its-own-arguments-as-its-sender", ok, d, fn=f, sample="%s{%s} from sender" % (variant.rsplit("::", 1)[-1], ", ".join(fields)))
+        if ok:
+            def from_exec(o):
+                return contains(o, lambda x: x[0] == "call" and x[1] == "executor::Executor::execute")
+            vals = [v for site, v in q.success_return_sites(P, f)]
+            if answer == "as-is":
+                oka = bool(vals) and all(peel(v)[0] == "call" and peel(v)[1] == "executor::Executor::execute" or
+                                         (peel(v)[0] == "agg" and peel(v)[1].endswith("Result::Ok") and peel(peel(v)[2][0][1])[0] == "ok" and from_exec(peel(v)[2][0][1])) for v in vals)
+                want = "self.execute(..) as it is"
+            elif answer == "address":
+                oka = bool(vals) and all(contains(v, lambda x: x[0] == "field" and x[2] == "contract_address" and
+                                                  contains(x[1], lambda y: y[0] == "call" and y[1] == "cw_utils::parse_instantiate_response_data" and
+                                                           contains(y[2][0], lambda z: z[0] == "field" and z[2] == "data" and from_exec(z[1])))) for v in vals)
+                want = "the contract_address of the instantiate envelope in the response's data"
+            else:
+                oka = bool(vals) and all(from_exec(v) and contains(v, lambda x: x[0] == "field" and x[2] == "data" and
+                                                                   contains(x[1], lambda y: y[0] == "call" and y[1] == "cw_utils::parse_execute_response_data")) for v in vals)
+                want = "the response with its data unwrapped from the execute envelope"
+            ctx.ob(R, key, "answers-from-that-call's-response", oka, "%s does not answer %s" % (name, want), fn=f, sample=want)
 
 
 def r10(ctx, cfg):
